@@ -9,6 +9,7 @@ from .terms import STD_DISCR
 
 MAX_ROUNDS = 80
 MAX_CHAIN = 6
+FOLD_EQ = [True]      # thread_jumps(.., fold_eq=False): do not decide `a == b` of two known scalars (rules that look for that very guard)
 MAX_CHAIN_DECISION = 14     # switches on a private fieldless "decision" enum returned by an inlined helper
 
 
@@ -61,17 +62,20 @@ def _extra_rv(body, rv, known, op_val, adts):
             d = _discr_of(kv[1], kv[2], adts)
             if d is not None:
                 return ('int', d)
-    if k == 'bin' and rv.get('op') in ('Eq', 'Ne'):
+    if k == 'bin' and rv.get('op') in ('Eq', 'Ne') and FOLD_EQ[0]:
         a, b = op_val(rv['a']), op_val(rv['b'])
         if a and b and a[0] == b[0] and a[0] in ('int', 'bool'):
             return ('bool', (a[1] == b[1]) == (rv['op'] == 'Eq'))
     return None
 
 
-def _resolve(body, chain_blocks, s_block, adts):
+def _resolve(body, chain_blocks, s_block, adts, seed=None):
     """Walk statements of chain (first block .. switch block) forward, tracking known values of plain locals:
-    returns the switch value (int as str / bool) if determined, else None."""
-    known = {}      # local -> ('variant', adt_path, name) | ('int', v) | ('bool', b)
+    returns the switch value (int as str / bool) if determined, else None.
+    seed = (local, ('discr', v)): the chain is entered over the edge of an earlier switch that found discriminant v in `local`."""
+    known = {}      # local -> ('variant', adt_path, name) | ('int', v) | ('bool', b) | ('discr', v)
+    if seed is not None:
+        known[seed[0]] = seed[1]
 
     def op_val(o):
         if o.get('k') == 'const':
@@ -121,6 +125,8 @@ def _resolve(body, chain_blocks, s_block, adts):
                     d = _discr_of(k[1], k[2], adts)
                     if d is not None:
                         val = ('int', d)
+                elif k and k[0] == 'discr':
+                    val = ('int', k[1])
             elif rv['k'] == 'un' and rv['op'] == 'Not':
                 k = op_val(rv['a'])
                 if k and k[0] == 'bool':
@@ -324,8 +330,17 @@ def _decision_switch(body, s_bi, adts):
     return False
 
 
-def thread_jumps(body, adts=None):
+def thread_jumps(body, adts=None, fold_eq=True):
     """Returns a new Body with determinable switch edges threaded (or the same body if nothing changed)."""
+    old = FOLD_EQ[0]
+    FOLD_EQ[0] = fold_eq
+    try:
+        return _thread_jumps(body, adts)
+    finally:
+        FOLD_EQ[0] = old
+
+
+def _thread_jumps(body, adts=None):
     if adts is None:
         adts = {}
         cr = body.crate
@@ -367,6 +382,25 @@ def thread_jumps(body, adts=None):
                             break
                         if len(chain) <= MAX_CHAIN or (len(chain) <= MAX_CHAIN_DECISION and _decision_switch(cur, s_bi, adts)):
                             stack.append(chain)
+                    elif tp['k'] == 'switch' and p != s_bi and _pure(blocks[p]) and len(ch) <= MAX_CHAIN and len(preds[head]) > 1:
+                        # correlated switches: the chain is entered over the one edge of an earlier switch on discr(L); on
+                        # that edge L's variant is known, so a later switch on (a moved copy of) L is decided
+                        hits = [v_ for v_, tb_ in tp['targets'] if tb_ == head]
+                        if len(hits) == 1 and tp['otherwise'] != head:
+                            dl = tp['discr']['place']['l'] if tp['discr'].get('k') in ('copy', 'move') and not tp['discr']['place']['p'] else None
+                            src = None
+                            for s_ in blocks[p]['stmts']:
+                                if s_['k'] == 'assign' and not s_['place']['p'] and s_['place']['l'] == dl and s_['rv']['k'] == 'discr' and not s_['rv']['place']['p']:
+                                    src = s_['rv']['place']['l']
+                            if src is not None:
+                                try:
+                                    val = _resolve(cur, ch, s_bi, adts, seed=(src, ('discr', int(hits[0]))))
+                                except ValueError:
+                                    val = None
+                                if val is not None:
+                                    tgt = _target_for(blocks[s_bi]['term'], val)
+                                    plan = (p, ch, tgt, head)
+                                    break
                     elif tp['k'] in ('call', 'drop', 'assert') and tp.get('target') == head and len(ch) <= MAX_CHAIN and len(preds[head]) > 1:
                         # value may be determined by statements of the chain blocks only (e.g. drop flags set in head)
                         val = _resolve(cur, ch, s_bi, adts) if len(ch) > 1 else None
@@ -378,7 +412,8 @@ def thread_jumps(body, adts=None):
                 break
         if plan is None:
             break
-        p, ch, tgt = plan
+        sw_head = plan[3] if len(plan) == 4 else None
+        p, ch, tgt = plan[:3]
         # does threading change anything? if ch[0] has a single pred and S's resolved target equals its only feasible
         # edge we still simplify: rewrite
         if j is None:
@@ -396,10 +431,12 @@ def thread_jumps(body, adts=None):
             if k + 1 < len(ch):
                 c['term'] = {'k': 'goto', 'target': new_ids[k + 1]}
             else:
-                c['term'] = {'k': 'goto', 'target': tgt, 'threaded': True}
+                c['term'] = {'k': 'goto', 'target': tgt, 'threaded': True, 'from_switch': ch[-1]}
         # redirect p's edge ch[0] -> new_ids[0]
         tp = nb[p]['term']
-        if tp['k'] == 'goto':
+        if tp['k'] == 'switch':
+            tp['targets'] = [[v_, (new_ids[0] if tb_ == sw_head else tb_)] for v_, tb_ in tp['targets']]
+        elif tp['k'] == 'goto':
             tp['target'] = new_ids[0]
         else:
             tp['target'] = new_ids[0]
@@ -409,6 +446,15 @@ def thread_jumps(body, adts=None):
         changed_any = True
         if len(nb) > 4000:
             break
+    if changed_any:
+        # threading changed who reaches what: a switch that now has only ways in on which its scrutinee is one known value
+        # (the other ways were redirected) is decided as well
+        try:
+            cur2 = fold_constants(cur, adts)
+            if cur2 is not cur:
+                cur = cur2
+        except Exception:
+            pass
     if changed_any:
         # blocks that became unreachable must not be seen by rules that enumerate call sites / stores
         seen = set()
